@@ -734,7 +734,7 @@ func runTrie(r *vrt.Run, idx int) {
 
 func run(r *vrt.Run) {
 	r.Rule("a case is one VerifyRangeProof call on a random fixed-key-length trie (single entry, pair, dense 2-byte keys with a common prefix, random and prefix-sharing 32-byte keys, dense 3/4-byte keys; 1..600 entries, thorough to 4096); honest runs for ALL (i,j) boundaries of tries <= 64 entries (sampled above) with start key = first key / inside the preceding gap / all-zero / before all keys; empty runs; whole-trie runs without proof; tamperings (drop, drop-last, inject, alter value, swap, duplicate, extend, shift start key, proof subsets, bloated proof); hostile superset (variable-length/unsorted keys, empty values, arbitrary start key, arbitrary subsets of genuine nodes). non-trivial signature = (trie kind, size class, key-length domain, start-key kind, run length class, tamper kind, decision x truthfulness)")
-	n := r.N(300, 15000)
+	n := r.N(300, 10000)
 	vrt.Par(n, 0, func(i int) { runTrie(r, i) })
 	r.Require("honest_runs", 20000)
 	r.Require("honest_runs_more_true", 1000)
